@@ -45,6 +45,8 @@ import os
 from collections import OrderedDict
 import abc
 
+from psyclone import _verif_hooks
+
 from psyclone.configuration import (
     Config, LFRIC_API_NAMES, GOCEAN_API_NAMES, NO_API_NAMES)
 from psyclone.core import AccessType
@@ -1652,6 +1654,7 @@ class CodedKern(Kern):
             new_suffix += f"_{name_idx}"
             new_name = old_base_name + new_suffix + "_mod.f90"
 
+            _verif_hooks.pause("create", name_idx)
             try:
                 # Atomically attempt to open the new kernel file (in case
                 # this is part of a parallel build)
@@ -1667,6 +1670,7 @@ class CodedKern(Kern):
                     break
                 continue
 
+        _verif_hooks.pause("rename", name_idx)
         # Use the suffix we have determined to rename all relevant quantities
         # within the AST of the kernel code.
         self._rename_psyir(new_suffix)
@@ -1674,6 +1678,7 @@ class CodedKern(Kern):
         # Kernel is now self-consistent so unset the modified flag
         self.modified = False
 
+        _verif_hooks.pause("render", name_idx)
         # If we reach this point the kernel needs to be written out into a
         # file using a PSyIR back-end. At the moment there is no way to choose
         # which back-end to use, so simply use the Fortran one (and limit the
@@ -1692,9 +1697,11 @@ class CodedKern(Kern):
             # because the file already exists and the kernel-naming scheme
             # ("single") means we're not creating a new one.
             # Check that what we've got is the same as what's in the file
+            _verif_hooks.pause("readback", name_idx)
             with open(os.path.join(config.kernel_output_dir,
                                    new_name), "r") as ffile:
                 kern_code = ffile.read()
+                _verif_hooks.pause("compare", name_idx)
                 if kern_code != new_kern_code:
                     raise GenerationError(
                         f"A transformed version of this Kernel "
@@ -1709,7 +1716,9 @@ class CodedKern(Kern):
                         f"'--kernel-renaming multiple'.)")
         else:
             # Write the modified AST out to file
+            _verif_hooks.pause("write", name_idx)
             os.write(fdesc, new_kern_code.encode())
+            _verif_hooks.pause("close", name_idx)
             # Close the new kernel file
             os.close(fdesc)
 
